@@ -316,6 +316,8 @@ impl Context {
         // marks the state in the paths
         for p in paths {
             if p.state().is_running() {
+                // the other branches beneath the task that is left are closed with it
+                self.skip_tasks_beneath(p)?;
                 p.set_state(TaskState::Completed);
                 self.emit_task(p)?;
             } else if p.state().is_pending() {
